@@ -5,8 +5,9 @@
    chunking r of the byte stream s, Decode returns the canonical form of m.
    [src_of (scan_all r)] is what a decoder sees through pktline.Scanner. *)
 From Coq Require Import List NArith ZArith Bool.
-From GoGit Require Import Base.Out Model.PktLine Model.Packp
-  Proofs.C34Pkt Proofs.C35Base Proofs.C35Msgs Proofs.C35Caps Proofs.C35Adv Proofs.C35Upd Proofs.C35Ul.
+From GoGit Require Import Base.Out Model.PktLine Model.C35Utf8 Model.Packp Model.PackpV2
+  Proofs.C34Pkt Proofs.C35Base Proofs.C35Msgs Proofs.C35Caps Proofs.C35Adv Proofs.C35Upd Proofs.C35Ul
+  Proofs.C35V2Base Proofs.C35V2Caps Proofs.C35V2Fetch Proofs.C35V2Ls Proofs.C35V2Out.
 Import ListNotations.
 
 (* capability.List: DecodeList (l.String()) = l for lists with distinct,
@@ -128,6 +129,104 @@ Proof.
 Qed.
 Print Assumptions C35_ulreq_roundtrip.
 
+(* ================= protocol v2 =================
+   The v2 decoders call pktline.ReadLine themselves: [map fst (rl_all r)] is the
+   sequence of ReadLine results on the reader r (any chunking of the bytes),
+   [val] drops the unread rest.  Guards: capability keys and values, commands,
+   ref-prefixes, reference names, deepen-not references and filters are words
+   of graphic non-blank ASCII (keys without '='); ids are valid SHA-1 / SHA-256. *)
+Lemma on_lines {A} (dec : lines -> (A * lines) + v2err) ps s r v :
+  enc_pkts ps = Some s -> concat r = s -> forallb no_errline ps = true ->
+  dec (map rdp ps ++ [rd_fail PEeof]) = inl (v, [rd_fail PEeof]) -> val (dec (map fst (rl_all r))) = inl v.
+Proof. intros He Hr Hn Hd. rewrite (rl_all_fst ps s r He Hn Hr), Hd. reflexivity. Qed.
+
+(* CapabilityAdv: "version 2", one capability per line, flush-pkt *)
+Theorem C35_capadv_roundtrip : forall l ps s r, caps2_ok l = true ->
+  capadv_encode 2 l = Some ps -> enc_pkts ps = Some s -> concat r = s ->
+  val (capadv_decode (map fst (rl_all r))) = inl (2%Z, l).
+Proof.
+  intros l ps s r H Hc He Hr. destruct (capadv_roundtrip l ps [rd_fail PEeof] H Hc) as [Hn Hd].
+  rewrite (rl_all_fst ps s r He Hn Hr), Hd. reflexivity.
+Qed.
+Print Assumptions C35_capadv_roundtrip.
+
+(* CommandRequest: command=, capabilities, delim-pkt, the arguments of ls-refs
+   (peel / symrefs / unborn / ref-prefix) or fetch (want, have, done, thin-pack,
+   no-progress, include-tag, ofs-delta, shallow, deepen, deepen-relative,
+   deepen-since, deepen-not, filter, wait-for-done) or none, flush-pkt.
+   The fetch arguments come back with wants, haves and shallows sorted. *)
+Theorem C35_cmdreq_roundtrip : forall c ps s r, cmdreq_ok c = true ->
+  cmdreq_encode c = Some ps -> enc_pkts ps = Some s -> concat r = s ->
+  val (cmdreq_decode (cargs_zero (cr_args c)) (map fst (rl_all r))) = inl (cmdreq_canon c).
+Proof.
+  intros c ps s r H Hc He Hr. destruct (cmdreq_roundtrip c ps [rd_fail PEeof] H Hc) as [Hn Hd].
+  rewrite (rl_all_fst ps s r He Hn Hr), Hd. reflexivity.
+Qed.
+Print Assumptions C35_cmdreq_roundtrip.
+
+(* the argument encoders alone (the caller writes the flush-pkt) *)
+Theorem C35_lsargs_roundtrip : forall a ps s r, lsargs_ok a = true ->
+  lsargs_encode a = Some ps -> enc_pkts (ps ++ [PFlush]) = Some s -> concat r = s ->
+  val (lsargs_decode (map fst (rl_all r)) lsargs_zero) = inl a.
+Proof.
+  intros a ps s r H Hc He Hr. destruct (lsargs_roundtrip a ps [rd_fail PEeof] H Hc) as [Hn Hd].
+  rewrite (rl_all_fst (ps ++ [PFlush]) s r He) by (first [assumption | rewrite forallb_app, Hn; reflexivity]). now rewrite Hd.
+Qed.
+Print Assumptions C35_lsargs_roundtrip.
+
+Theorem C35_fetchargs_roundtrip : forall a ps s r, fetchargs_ok a = true ->
+  fetchargs_encode a = Some ps -> enc_pkts (ps ++ [PFlush]) = Some s -> concat r = s ->
+  val (fetchargs_decode (map fst (rl_all r)) fetchargs_zero) = inl (fetchargs_canon a).
+Proof.
+  intros a ps s r H Hc He Hr. destruct (fetchargs_roundtrip a ps [rd_fail PEeof] H Hc) as [Hn Hd].
+  rewrite (rl_all_fst (ps ++ [PFlush]) s r He) by (first [assumption | rewrite forallb_app, Hn; reflexivity]). now rewrite Hd.
+Qed.
+Print Assumptions C35_fetchargs_roundtrip.
+
+(* LsRefsOutput: "<oid> <name>", " symref-target:<t>" for a symbolic reference
+   (its oid is that of the target, or "unborn"), " peeled:<oid>" for a name
+   that has a ^{} entry, which comes back as its own reference right after *)
+Theorem C35_lsout_roundtrip : forall refs s r, forallb lsref_ok refs = true ->
+  enc_pkts (lsout_encode refs ++ [PFlush]) = Some s -> concat r = s ->
+  val (lsout_decode (map fst (rl_all r)) []) = inl (lsout_canon refs).
+Proof.
+  intros refs s r H He Hr. destruct (lsout_roundtrip refs [rd_fail PEeof] H) as [Hn Hd].
+  rewrite (rl_all_fst _ s r He) by (first [assumption | rewrite forallb_app, Hn; reflexivity]). now rewrite Hd.
+Qed.
+Print Assumptions C35_lsout_roundtrip.
+
+(* FetchOutput: a negotiation round (acknowledgments without ready, flush-pkt), or
+   the sections acknowledgments (with ready) / shallow-info / wanted-refs /
+   packfile-uris, each closed by a delim-pkt, and the packfile header.
+   Guard fetchout_ok: with a packfile, acknowledgments must be ready (Encode does
+   not check it; go-git's and git's decoders refuse such a response). *)
+Theorem C35_fetchout_roundtrip : forall o ps s r, fetchout_ok o = true ->
+  fetchout_encode o = Some ps -> enc_pkts ps = Some s -> concat r = s ->
+  val (fetchout_decode (map fst (rl_all r))) = inl o.
+Proof.
+  intros o ps s r H Hc He Hr. destruct (fetchout_roundtrip o ps [rd_fail PEeof] H Hc) as [Hn Hd].
+  rewrite (rl_all_fst ps s r He Hn Hr), Hd. reflexivity.
+Qed.
+Print Assumptions C35_fetchout_roundtrip.
+
+(* the full statement for Encode-accepted values is false of the code: Encode
+   writes acknowledgments without "ready" in front of a packfile, Decode refuses it *)
+Theorem C35_fetchout_noready_refuted : exists o ps,
+  fetchout_encode o = Some ps /\ forallb no_errline ps = true /\
+  fetchout_decode (map rdp ps ++ [rd_fail PEeof]) = inr V2Malformed.
+Proof.
+  exists (mkfetchout (Some ([], false)) None None None true). eexists. split; [reflexivity|]. vm_compute. split; reflexivity.
+Qed.
+Print Assumptions C35_fetchout_noready_refuted.
+
+(* ... and Decode leaves the reader right behind the packfile header: whatever
+   bytes t follow (the packfile data), exactly |t| bytes are unread *)
+Theorem C35_fetchout_position : forall o ps s t r, fetchout_ok o = true -> fo_packfile o = true ->
+  fetchout_encode o = Some ps -> enc_pkts ps = Some s -> concat r = s ++ t ->
+  exists ls', fetchout_decode (map fst (rl_all r)) = inl (o, ls') /\ rl_rest (rlen r) (rl_all r) ls' = List.length t.
+Proof. exact fetchout_position. Qed.
+Print Assumptions C35_fetchout_position.
+
 (* ---------- non-vacuity ---------- *)
 From Coq Require Import String.
 Definition h1 : hash := mkhash (repeat 17%N 20 ++ repeat 0%N 12) false.
@@ -156,6 +255,18 @@ Example C35_ex_requests :
   ul_ok (mkulreq [] [h1] [] 3 None [] (B "blob:none")) = true /\
   ul_ok (mkulreq [] [h3] [h3] 0 None [B "refs/heads/x"] (B "tree:0")) = true /\
   ul_wants (ul_canon (mkulreq [] [h2; h1; h2] [] 0 None [] [])) = [h1; h2].
+Proof. vm_compute. repeat split. Qed.
+
+Example C35_ex_v2 :
+  caps2_ok [(B "agent", [B "git/2.39.5"]); (B "ls-refs", [B "unborn"]); (B "fetch", [B "shallow"; B "wait-for-done"; B "filter"]); (B "server-option", [])] = true /\
+  cmdreq_ok (mkcmdreq (B "ls-refs") [(B "agent", [B "go-git"])] (CALs (mklsargs true true false [B "refs/heads/"; B "HEAD"]))) = true /\
+  cmdreq_ok (mkcmdreq (B "fetch") [(B "object-format", [B "sha1"])]
+     (CAFetch (mkfetchargs [h2; h1] [h1] true true false true true [h2] 3 false (Some 1700000000%Z) [B "refs/heads/old"] (B "blob:none") false))) = true /\
+  forallb lsref_ok [(B "HEAD", RSym (B "refs/heads/main")); (B "refs/heads/main", RHash h1); (B "refs/tags/v1", RHash h2); (B "refs/tags/v1^{}", RHash h1)] = true /\
+  lsout_canon [(B "refs/tags/v1^{}", RHash h1); (B "refs/tags/v1", RHash h2)] = [(B "refs/tags/v1", RHash h2); (B "refs/tags/v1^{}", RHash h1)] /\
+  fetchout_ok (mkfetchout (Some ([h1], true)) (Some ([h2], [])) (Some [(B "refs/heads/main", h1)]) (Some [B "https://x/y.pack"]) true) = true /\
+  fetchout_ok (mkfetchout (Some ([], false)) None None None false) = true /\
+  fetchout_ok (mkfetchout (Some ([h1], false)) None None None true) = false.
 Proof. vm_compute. repeat split. Qed.
 
 Example C35_ex_srvresp :
